@@ -258,3 +258,35 @@ pub fn default_cfg() -> SimConfig {
 pub fn finish(state: &SimState, out: &mut Outcome) {
     sim::finish(state, out)
 }
+
+/// One-line description of an IPv4 frame (debug aid).
+pub fn describe_ipv4_frame(b: &[u8]) -> String {
+    if b.len() < 20 {
+        return format!("short frame {} bytes", b.len());
+    }
+    let proto = b[9];
+    let src = &b[12..16];
+    let dst = &b[16..20];
+    let ttl = b[8];
+    if proto == 6 && b.len() >= 40 {
+        let t = &b[20..];
+        let seq = u32::from_be_bytes(t[4..8].try_into().unwrap());
+        let ack = u32::from_be_bytes(t[8..12].try_into().unwrap());
+        let flags = t[13];
+        let wnd = u16::from_be_bytes(t[14..16].try_into().unwrap());
+        let mut f = String::new();
+        for (bit, name) in [(0x02, "S"), (0x10, "A"), (0x01, "F"), (0x04, "R"), (0x08, "P")] {
+            if flags & bit != 0 {
+                f.push_str(name);
+            }
+        }
+        format!("{}.{}->{}.{} tcp {}>{} [{f}] seq={seq} ack={ack} wnd={wnd} len={} ttl={ttl}", src[2], src[3], dst[2], dst[3],
+            u16::from_be_bytes(t[0..2].try_into().unwrap()), u16::from_be_bytes(t[2..4].try_into().unwrap()), b.len() - 40)
+    } else if proto == 17 && b.len() >= 28 {
+        let t = &b[20..];
+        format!("{}.{}->{}.{} udp {}>{} len={} ttl={ttl}", src[2], src[3], dst[2], dst[3],
+            u16::from_be_bytes(t[0..2].try_into().unwrap()), u16::from_be_bytes(t[2..4].try_into().unwrap()), b.len() - 28)
+    } else {
+        format!("{}.{}->{}.{} proto {proto} len={} ttl={ttl}", src[2], src[3], dst[2], dst[3], b.len() - 20)
+    }
+}
